@@ -354,6 +354,9 @@ def c09(chk):
     chk.add_model(info, summ, {"resolve", "panic"}, ["resolve_nontrivial"], note="MC_Resolve.tla: the complete configuration matrix")
     ctx_model(chk, "small", {"history", "panic"}, workers=12 if chk.tier == "quick" else 16)
     ctx_model(chk, "zeros", {"history", "panic"}, workers=12 if chk.tier == "quick" else 16)      # a user function named `max`, re-bound and cleared; trees reused
+    traces(chk, "histories", "trace_histories", quick=(4, 1500), thorough=(16, 8000),
+           note="200-step histories over 12 names and the function names f, v0, max on two slots; a few precompiled trees "
+                "(`max(1, 2)`, `f(2)`, `v0(3)`, ...) are evaluated again and again while functions are bound, re-bound and cleared")
     chk.add_traces("trace_bigctx", "bigctx", 1, 1, "trace_bigctx",
                    note="one context with 70-110 variables and as many functions, among them `max` and `len`: the switch and the clears")
     repo_tests(chk)
